@@ -430,6 +430,11 @@ func (w *World) Run(until time.Duration) {
 					w.Trace = append(w.Trace, fmt.Sprintf("%d stall %v parked=%d", now, d, len(w.parked)))
 				}
 				w.mu.Unlock()
+				// (a poke left over from the park that brought us here must not end the stall at once)
+				select {
+				case <-w.wake:
+				default:
+				}
 				tm := time.NewTimer(d)
 				w.inDriver.Store(false)
 				select {
